@@ -770,7 +770,7 @@ func genLines(r *rand.Rand, types []string) (lines []string, absent bool, flavou
 func run(m *mon.M) {
 	// function level, G1
 	r := m.Rand("g1")
-	n := m.N(45000, 700000)
+	n := m.N(45000, 560000)
 	for i := 0; i < n; i++ {
 		var c *Case
 		if i%5 == 4 {
@@ -795,7 +795,7 @@ func run(m *mon.M) {
 	}
 	// G2: arbitrary bytes and mutations of well-formed values
 	r2 := m.Rand("g2")
-	n2 := m.N(8000, 120000)
+	n2 := m.N(8000, 100000)
 	for i := 0; i < n2; i++ {
 		var lines []string
 		nl := 1
